@@ -2,6 +2,7 @@ package transactional
 
 import (
 	"errors"
+	"io"
 
 	"github.com/go-git/go-git/v6/plumbing"
 	"github.com/go-git/go-git/v6/plumbing/storer"
@@ -20,6 +21,12 @@ func NewObjectStorage(base, temporal storer.EncodedObjectStorer) *ObjectStorage 
 }
 
 // SetEncodedObject honors the storer.EncodedObjectStorer interface.
+// RawObjectWriter returns a writer that stores the object in the temporal
+// storage, so the base storage is not touched before Commit.
+func (o *ObjectStorage) RawObjectWriter(typ plumbing.ObjectType, sz int64) (io.WriteCloser, error) {
+	return o.temporal.RawObjectWriter(typ, sz)
+}
+
 func (o *ObjectStorage) SetEncodedObject(obj plumbing.EncodedObject) (plumbing.Hash, error) {
 	return o.temporal.SetEncodedObject(obj)
 }
